@@ -145,13 +145,28 @@ def classify(meta, res):
             continue
         p = prim[0] if prim else None
         loc = _where(meta, gen, gen_text, p) if p else {}
+        ext_clause = None
+        if loc.get("o") == "external":
+            # a postcondition inherited from a std trait spec (e.g. vstd's Iterator::next laws):
+            # locate the function through the other spans, name the clause after the std file
+            ext_clause = "std:%s:%s" % (os.path.basename(loc.get("file") or "?"), loc.get("line"))
+            for sx in spans:
+                if sx is p:
+                    continue
+                w2 = _where(meta, gen, gen_text, sx)
+                if w2.get("o") in ("repo", "spec", "rewrite") and w2.get("fn"):
+                    loc = dict(w2, external_clause=ext_clause)
+                    break
         # the clause that failed
         clause, owner_fn = None, loc.get("fn")
         callee_clause = None
         if kind in ("ensures", "invariant", "invariant-entry", "invariant-preserve"):
-            if loc.get("o") == "spec":
+            if loc.get("o") == "spec" and not ext_clause:
                 clause = loc["clause"]
                 owner_fn = loc["fn"]
+            elif ext_clause:
+                clause = ext_clause
+                owner_fn = loc.get("fn")
         if kind == "requires":
             for s in spans:
                 if s.get("label") and "failed precondition" in s["label"]:
